@@ -374,3 +374,12 @@ Definition show_outcome (o : outcome string) : string :=
   | RaisedOther => "RaisedOther"%string
   | Returned tys => sapp "Returned " (join ";" (map (fun kt => sapp (fst kt) (sapp ":" (match snd kt with None => "-"%string | Some t => show_ty t end))) tys))
   end.
+
+(* ------------------------------------------------------------------------------------------------ signature-level condition for keys_ok *)
+Definition field_names (s : sig) : list string := map fst (s_ins s ++ s_outs s).
+Definition is_variadic (sl : slot) : bool := match snd sl with KVariadic => true | _ => false end.
+Definition no_prefix_clash (sl : list slot) : bool :=
+  forallb (fun v => forallb (fun f => negb (String.prefix (sapp (fst v) "_") f)) (map fst sl)) (filter is_variadic sl).
+(* distinct non-empty field names over inputs and outputs together, none starting with "<variadic field>_" *)
+Definition sig_keys_ok (s : sig) : bool :=
+  nodupb (field_names s) && forallb (fun k => negb (is_empty k)) (field_names s) && no_prefix_clash (s_ins s ++ s_outs s).
